@@ -50,6 +50,90 @@ impl AtomicUsize {
         point(5);
         self.0.fetch_sub(v, o)
     }
+
+    // The rest of the std surface, so that code using it builds with the
+    // feature on as well.
+
+    #[allow(dead_code)]
+    pub(crate) fn store(&self, v: usize, o: Ordering) {
+        point(8);
+        self.0.store(v, o)
+    }
+
+    #[allow(dead_code)]
+    pub(crate) fn swap(&self, v: usize, o: Ordering) -> usize {
+        point(8);
+        self.0.swap(v, o)
+    }
+
+    #[allow(dead_code)]
+    pub(crate) fn fetch_xor(&self, v: usize, o: Ordering) -> usize {
+        point(8);
+        self.0.fetch_xor(v, o)
+    }
+
+    #[allow(dead_code)]
+    pub(crate) fn fetch_max(&self, v: usize, o: Ordering) -> usize {
+        point(8);
+        self.0.fetch_max(v, o)
+    }
+
+    #[allow(dead_code)]
+    pub(crate) fn fetch_min(&self, v: usize, o: Ordering) -> usize {
+        point(8);
+        self.0.fetch_min(v, o)
+    }
+
+    #[allow(dead_code)]
+    pub(crate) fn compare_exchange(
+        &self,
+        cur: usize,
+        new: usize,
+        s: Ordering,
+        f: Ordering,
+    ) -> Result<usize, usize> {
+        point(8);
+        self.0.compare_exchange(cur, new, s, f)
+    }
+
+    #[allow(dead_code)]
+    pub(crate) fn compare_exchange_weak(
+        &self,
+        cur: usize,
+        new: usize,
+        s: Ordering,
+        f: Ordering,
+    ) -> Result<usize, usize> {
+        point(8);
+        self.0.compare_exchange(cur, new, s, f)
+    }
+
+    #[allow(dead_code)]
+    pub(crate) fn fetch_update(
+        &self,
+        s: Ordering,
+        f: Ordering,
+        mut op: impl FnMut(usize) -> Option<usize>,
+    ) -> Result<usize, usize> {
+        let mut cur = self.load(f);
+        loop {
+            let Some(new) = op(cur) else { return Err(cur) };
+            match self.compare_exchange(cur, new, s, f) {
+                Ok(v) => return Ok(v),
+                Err(v) => cur = v,
+            }
+        }
+    }
+
+    #[allow(dead_code)]
+    pub(crate) fn get_mut(&mut self) -> &mut usize {
+        self.0.get_mut()
+    }
+
+    #[allow(dead_code)]
+    pub(crate) fn into_inner(self) -> usize {
+        self.0.into_inner()
+    }
 }
 
 #[repr(transparent)]
@@ -68,6 +152,41 @@ impl<T> AtomicPtr<T> {
     pub(crate) fn store(&self, p: *mut T, o: Ordering) {
         point(7);
         self.0.store(p, o)
+    }
+
+    #[allow(dead_code)]
+    pub(crate) fn swap(&self, p: *mut T, o: Ordering) -> *mut T {
+        point(9);
+        self.0.swap(p, o)
+    }
+
+    #[allow(dead_code)]
+    pub(crate) fn compare_exchange(
+        &self,
+        cur: *mut T,
+        new: *mut T,
+        s: Ordering,
+        f: Ordering,
+    ) -> Result<*mut T, *mut T> {
+        point(9);
+        self.0.compare_exchange(cur, new, s, f)
+    }
+
+    #[allow(dead_code)]
+    pub(crate) fn compare_exchange_weak(
+        &self,
+        cur: *mut T,
+        new: *mut T,
+        s: Ordering,
+        f: Ordering,
+    ) -> Result<*mut T, *mut T> {
+        point(9);
+        self.0.compare_exchange(cur, new, s, f)
+    }
+
+    #[allow(dead_code)]
+    pub(crate) fn get_mut(&mut self) -> &mut *mut T {
+        self.0.get_mut()
     }
 }
 
